@@ -525,7 +525,11 @@ def stmt(draw, env, depth, loop=False, in_sub=False):
             choices += ["break", "continue"]
         if in_sub:
             choices += ["return"]
+        if depth >= 2:
+            choices += ["motif"] * 3
     k = draw(st.sampled_from(choices))
+    if k == "motif":
+        return draw(motif(env, depth, in_sub))
     if k == "simple":
         return draw(simple_stmt(env))
     if k == "if":
@@ -611,6 +615,47 @@ def stmt(draw, env, depth, loop=False, in_sub=False):
     if k == "return":
         return {"k": "return", "e": None}
     raise AssertionError(k)
+
+
+@st.composite
+def motif(draw, env, depth, in_sub):
+    """structured nestings that random composition reaches rarely: nested loops with an outer break/continue
+    placed after the inner loop, awaits in else branches inside loops, continue after an await, break out of a
+    nested if, await directly after a loop"""
+    ienv = env.inputs_only()
+    cond = lambda: cond_expr(ienv, 1)  # noqa: E731
+    simple = lambda: simple_stmt(env.child())  # noqa: E731
+    kind = draw(st.sampled_from(["nested_outer_exit", "await_in_else", "continue_after_await", "break_nested_if",
+                                 "loop_then_await", "two_inner_loops"]))
+    aw = lambda: {"k": "await", "c": draw(st.one_of(st.just("true"), cond()))}  # noqa: E731
+    if kind == "nested_outer_exit":
+        inner_body = [draw(simple()), aw()] + ([{"k": draw(st.sampled_from(["break", "continue"]))}] if draw(st.booleans()) else [])
+        inner = {"k": "while", "c": draw(cond()), "body": inner_body}
+        exit_kind = draw(st.sampled_from(["break", "break", "continue"]))
+        tail = [{"k": exit_kind}] if draw(st.booleans()) else [{"k": "if", "arms": [[draw(cond()), [draw(simple()), {"k": exit_kind}]]], "else": None},
+                                                                draw(simple()), aw()]
+        pre = [draw(simple())] + ([aw()] if draw(st.booleans()) else [])
+        return {"k": "while", "c": draw(st.one_of(st.just("true"), cond())), "body": pre + [inner] + tail}
+    if kind == "two_inner_loops":
+        l1 = {"k": "while", "c": draw(cond()), "body": [draw(simple()), aw()]}
+        l2 = {"k": "while", "c": draw(cond()), "body": [aw(), draw(simple())]}
+        return {"k": "while", "c": draw(st.one_of(st.just("true"), cond())),
+                "body": [draw(simple()), l1, draw(simple()), l2, {"k": "if", "arms": [[draw(cond()), [{"k": "break"}]]], "else": None}, aw()]}
+    if kind == "await_in_else":
+        return {"k": "while", "c": draw(cond()), "body": [
+            {"k": "if", "arms": [[draw(cond()), [draw(simple())]]], "else": [aw(), draw(simple())]}, draw(simple()), aw()]}
+    if kind == "continue_after_await":
+        return {"k": "while", "c": draw(st.one_of(st.just("true"), cond())), "body": [
+            draw(simple()), aw(), {"k": "if", "arms": [[draw(cond()), [draw(simple()), {"k": "continue"}]]], "else": None},
+            draw(simple()), aw(), {"k": "if", "arms": [[draw(cond()), [{"k": "break"}]]], "else": None}]}
+    if kind == "break_nested_if":
+        return {"k": "while", "c": draw(st.one_of(st.just("true"), cond())), "body": [
+            aw(), {"k": "if", "arms": [[draw(cond()), [{"k": "if", "arms": [[draw(cond()), [draw(simple()), {"k": "break"}]]],
+                                                          "else": [draw(simple())]}, draw(simple())]]], "else": [aw()]},
+            draw(simple())]}
+    # loop_then_await
+    return {"k": "if", "arms": [[draw(cond()), [{"k": "while", "c": draw(cond()), "body": [draw(simple()), aw()]}, aw(), draw(simple())]]],
+            "else": [draw(simple())]}
 
 
 @st.composite
